@@ -109,7 +109,6 @@ def _own_programs():
                                      [("B", 3, 6, 8), sds((4, 3, 2, 2))])
     P["o:conv_nhwc_hwio"] = (lambda x, w: lax.conv_general_dilated(x, w, (1, 2), "SAME", dimension_numbers=("NHWC", "HWIO", "NHWC")),
                              [("B", 6, 8, 3), sds((2, 2, 3, 4))])
-    P["o:reduce_window_nchw"] = (lambda x: lax.reduce_window(x, -jnp.inf, lax.max, (1, 1, 2, 2), (1, 1, 2, 2), "VALID"), [("B", 3, 6, 8)])
     P["o:int_bcast"] = (lambda a, b: a[:, None] * b[None, :] + 1, [sds((3,), np.int32), sds((4,), np.int32)])
     return P
 
@@ -131,7 +130,7 @@ def own_names():
             "o:reshape_add_const", "o:cast_chain", "o:where_cmp", "o:sym_two_aranges", "o:min_sym_const111", "o:x64_narrowing_cast", "o:nchw_sym_spatial_broadcast", "o:nchw_sym_spatial_broadcast_only", "o:nchw_out_sym_spatial", "o:pow_scalar_base", "o:exp2", "o:power_col_base", "o:sym_pow_scalar_base",
             "o:vmap1_tensordot", "o:vmap1_tensordot_static", "o:dot_general_batch_nonleading", "o:dot_general_batch_last", "o:einsum_bthd",
             "o:einsum_cyclic", "o:attention_relayout", "o:moveaxis_chain", "o:transpose_cyclic_sym", "o:vmap2_matmul", "o:vmap1_einsum",
-            "o:conv_nchw_oihw_to_nhwc", "o:conv_nhwc_hwio", "o:reduce_window_nchw", "o:int_bcast"]
+            "o:conv_nchw_oihw_to_nhwc", "o:conv_nhwc_hwio", "o:int_bcast"]
 
 
 # ====================================================================== annotation snapshots (IR level)
